@@ -12,6 +12,7 @@ namespace EngineModel.Gen.ConvertV2
 open EngineModel EngineModel.TracksV2 EngineModel.Prim
 
 set_option maxHeartbeats 40000
+set_option linter.unusedSimpArgs false
 
 /-! ### bit-pattern facts -/
 
@@ -52,20 +53,25 @@ theorem F64_ne_zero (x : F) : F64.ne x (0x0000000000000000 : F) = !F64.isZero x 
 
 /-! ### convert_track.hpp -/
 
-/-- `convert::write::rating` -/
-theorem write_rating_eq (r : Option UInt32) : write_rating r = .ok (writeRating r) := by
-  unfold write_rating writeRating Cv.I32.clamp Cv.I32.lt
-  rw [i32ToI64_eq, i32_zero]
-  simp only [Res.pure_eq]
+/-- `(int64_t) std::clamp(v, 0, 100)` on bit patterns = the hand model's clamp on the value -/
+theorem clamp_sext (v : UInt32) :
+    Cv.i32ToI64 (Cv.I32.clamp v 0 (Cv.i32 100)) =
+      u64OfInt (if s32 v < 0 then 0 else if 100 < s32 v then 100 else s32 v) := by
+  unfold Cv.I32.clamp Cv.I32.lt
+  rw [i32ToI64_eq]
   have h0 : s32 0 = 0 := by decide
   have h100 : s32 (Cv.i32 100) = 100 := by decide
   rw [h0, h100]
-  congr 1
-  by_cases h1 : s32 (r.getD 0) < 0
+  by_cases h1 : s32 v < 0
   · simp only [h1, decide_true, if_true]; decide
-  · by_cases h2 : 100 < s32 (r.getD 0)
+  · by_cases h2 : 100 < s32 v
     · simp only [h1, h2, decide_true, decide_false, if_true, if_false, Bool.false_eq_true]; decide
     · simp only [h1, h2, decide_false, if_false, Bool.false_eq_true]; rfl
+
+/-- `convert::write::rating` (any arrangement of the same clamp: a named local, the call inline) -/
+theorem write_rating_eq (r : Option UInt32) : write_rating r = .ok (writeRating r) := by
+  unfold write_rating writeRating
+  simp only [i32_zero, clamp_sext, Res.pure_eq]
 
 /-- `convert::read::rating` -/
 theorem read_rating_eq (r : UInt64) : read_rating r = .ok (readRating r) := by
@@ -90,12 +96,22 @@ theorem write_duration_eq (d : Option UInt64) : write_duration d = .ok (writeDur
   have hb := tdiv1000_bounds _ hr.1 hr.2
   rw [if_neg (by decide), if_neg (by omega)]
 
-/-- `convert::read::duration` (the product is checked: `ub signed_overflow`) -/
-theorem read_duration_eq (len : UInt64) : read_duration len = readDuration len := by
-  unfold read_duration readDuration Cv.I64.mul Cv.I64.chk
-  rw [I64_eq_zero]
+theorem I64_zero_eq (x : UInt64) : Cv.I64.eq (Cv.i64 0) x = decide (x = 0) := by
+  rw [← I64_eq_zero]; unfold Cv.I64.eq; congr 1; exact propext ⟨Eq.symm, Eq.symm⟩
+
+theorem mul1000_eq (len : UInt64) :
+    Cv.I64.mul len (Cv.i64 1000) =
+      if s64 len * 1000 < -9223372036854775808 ∨ 9223372036854775807 < s64 len * 1000 then .ub .signed_overflow
+      else .ok (u64OfInt (s64 len * 1000)) := by
+  unfold Cv.I64.mul Cv.I64.chk
   have h1000 : s64 (Cv.i64 1000) = 1000 := by decide
   rw [h1000]
+
+/-- `convert::read::duration` (the product is checked: `ub signed_overflow`; the comparison may be written
+either way round, the product may be a named local) -/
+theorem read_duration_eq (len : UInt64) : read_duration len = readDuration len := by
+  unfold read_duration readDuration
+  simp only [I64_eq_zero, I64_zero_eq, mul1000_eq]
   by_cases h : len = 0
   · simp [h]
   · simp only [h, decide_false, Bool.false_eq_true, if_false]
